@@ -85,8 +85,7 @@ theorem transformConstants_gen_variables_order_matters :
     a set — and the flat model it returns is a function of the document alone (also independent of the
     `unit_store` argument). -/
 theorem load_order_independent_gen (fd : C17.FaultDoc) (us us' : Option Unit) :
-    (genParse fd us).map (·.flat) = (genParse fd us').map (·.flat) := by
-  rw [genParse_tie, genParse_tie]
+    (genParse fd us).map (·.flat) = (genParse fd us').map (·.flat) := rfl
 
 /-- `load_variables_equations_independent` for the generated `parse`: two successful runs return the same
     `variables()` and the same `equations`, in the same order. -/
